@@ -1,0 +1,21 @@
+//go:build verif
+
+// Accessors for the verification harness in /verif (build tag "verif").
+// This file only adds exported wrappers around unexported items; it changes
+// no behaviour and is absent from normal builds.
+
+package funnel
+
+// VerifDLQWindow exposes dlqWindow to the verification harness.
+type VerifDLQWindow struct{ w *dlqWindow }
+
+// VerifNewDLQWindow wraps newDLQWindow.
+func VerifNewDLQWindow(size, threshold int) *VerifDLQWindow {
+	return &VerifDLQWindow{w: newDLQWindow(size, threshold)}
+}
+
+// Ack wraps dlqWindow.Ack.
+func (v *VerifDLQWindow) Ack(count int) { v.w.Ack(count) }
+
+// Nack wraps dlqWindow.Nack.
+func (v *VerifDLQWindow) Nack(count int) int { return v.w.Nack(count) }
